@@ -8,7 +8,8 @@
 From Coq Require Import ZArith QArith List Reals Bool Lia.
 From DV Require Import Base.Field Base.LinAlg Base.RInst Base.QcInst Model.Losses Model.LossesR Model.RegStencil
   Model.Regularisers Gen.Regs Proofs.C16Lists Proofs.C17Stencil Proofs.C17Sobel Proofs.C17Loss Proofs.C17Lame
-  Proofs.C17Gen Proofs.C17Real.
+  Proofs.C17Gen Proofs.C17Real Proofs.C17BSpline.
+From DV Require Import Gen.BSpline.
 Import ListNotations.
 Local Open Scope fld_scope.
 
@@ -106,6 +107,39 @@ Theorem C17_gradient_terms_vanish_on_translations :
   elasticity_pt MFcb sh sp v i lambda mu = 0.
 Proof. exact translation_zero. Qed.
 Print Assumptions C17_gradient_terms_vanish_on_translations.
+
+(* the same analytic values in ANY derivative mode at every point where the first differences of the field are
+   exact, and for 'sobel' / 'prewitt' they are exact on affine functions two samples from the boundary (D = 2, 3) *)
+Theorem C17_gradient_terms_from_exact_differences :
+  forall (K : fld), is_field K ->
+  forall m sh (sp : list K) (v : list (idx -> K)) (Jm : nat -> nat -> K) (i : idx) (fabs : K -> K) lambda mu,
+  (forall c d, In c (dims sh) -> In d (dims sh) -> d1 m sh sp d (comp v c) i = Jm c d) ->
+  diffusion_pt m sh sp v i = sumf (dims sh) (fun d => sumf (dims sh) (fun c => sq (Jm c d))) / (1 + 1) /\
+  tv_pt m sh sp v i fabs = sumf (dims sh) (fun d => sumf (dims sh) (fun c => fabs (Jm c d))) /\
+  div_pt m sh sp v i = sq (sumf (dims sh) (fun c => Jm c c)) / (1 + 1) /\
+  elasticity_pt m sh sp v i lambda mu
+  = sq (sumf (dims sh) (fun c => Jm c c)) * (lambda / (1 + 1))
+    + sumf (dims sh) (fun j => sumf (dims sh) (fun k => sq (Jm j k + Jm k j) * (mu / ((1 + 1) * (1 + 1))))).
+Proof. intros K Kf m sh sp v Jm i fabs lambda mu H. exact (gradient_terms_exact K m sh sp v Jm i H fabs lambda mu). Qed.
+Print Assumptions C17_gradient_terms_from_exact_differences.
+
+Theorem C17_sobel_first_differences_interior :
+  forall (K : fld), is_field K -> char0 K -> forall m, m <> MFcb ->
+  (forall (nx ny x y : Z) (hx hy c a0 a1 : K),
+     (2 <= x <= nx - 3)%Z -> (2 <= y <= ny - 3)%Z -> hx <> 0 -> hy <> 0 ->
+     d1 m [nx; ny] [hx; hy] 0 (aff c [a0; a1]) [x; y] = a0 / hx /\ d1 m [nx; ny] [hx; hy] 1 (aff c [a0; a1]) [x; y] = a1 / hy) /\
+  (forall (nx ny nz x y z : Z) (hx hy hz c a0 a1 a2 : K),
+     (2 <= x <= nx - 3)%Z -> (2 <= y <= ny - 3)%Z -> (2 <= z <= nz - 3)%Z -> hx <> 0 -> hy <> 0 -> hz <> 0 ->
+     d1 m [nx; ny; nz] [hx; hy; hz] 0 (aff c [a0; a1; a2]) [x; y; z] = a0 / hx /\
+     d1 m [nx; ny; nz] [hx; hy; hz] 1 (aff c [a0; a1; a2]) [x; y; z] = a1 / hy /\
+     d1 m [nx; ny; nz] [hx; hy; hz] 2 (aff c [a0; a1; a2]) [x; y; z] = a2 / hz).
+Proof.
+  intros K Kf Kc m Hm. split.
+  - intros nx ny x y hx hy c a0 a1 Hx Hy Hhx Hhy. exact (sobel2_d1_interior K Kf Kc nx ny x y hx hy c a0 a1 Hx Hy Hhx Hhy m Hm).
+  - intros nx ny nz x y z hx hy hz c a0 a1 a2 Hx Hy Hz Hhx Hhy Hhz.
+    exact (sobel3_d1_interior K Kf Kc nx ny nz x y z hx hy hz c a0 a1 a2 Hx Hy Hz Hhx Hhy Hhz m Hm).
+Qed.
+Print Assumptions C17_sobel_first_differences_interior.
 
 (* ================= 3. sign, homogeneity, spacing, reductions ========================================= *)
 Theorem C17_nonnegative :
@@ -283,11 +317,39 @@ Theorem C17_gen_coefficients_3d :
 Proof. exact gen3_ok. Qed.
 Print Assumptions C17_gen_coefficients_3d.
 
-(* PARTIAL (not a theorem here): "the B-spline bending energy equals the energy of the analytic spline
-   derivatives" rests on the C14 spline model; in this check it is evaluated on the implementation
-   (bending_loss(mode='bspline') against evaluate_cubic_bspline with derivative kernels, and against the
-   deprecated alias).  Gaussian smoothing (sigma), modes forward / backward / central / gaussian and the
-   module wrappers are likewise covered by implementation-side evaluation only. *)
+(* ================= 7. mode 'bspline' ================================================================= *)
+(* the generated derivative weights (cubic_bspline_interpolation_weights, Gen/BSpline.v) act on four consecutive
+   samples of a quadratic q as the analytic derivatives of the spline q(y) + a/3 at y = x + 1 + t *)
+Theorem C17_bspline_weights_on_quadratic :
+  forall (K : fld), is_field K -> char0 K -> forall a b c x t : K,
+  let s := [quad1 K a b c x; quad1 K a b c (x + 1); quad1 K a b c (x + 1 + 1); quad1 K a b c (x + 1 + 1 + 1)] in
+  dot (gen_w 0 t) s = quad1 K a b c (x + 1 + t) + a / (1 + 1 + 1) /\
+  dot (gen_w 1 t) s = (1 + 1) * a * (x + 1 + t) + b /\
+  dot (gen_w 2 t) s = (1 + 1) * a /\
+  dot (gen_w 3 t) s = 0.
+Proof. exact weights_on_quadratic. Qed.
+Print Assumptions C17_bspline_weights_on_quadratic.
+
+(* bending_loss(mode='bspline') (model bs_bending_pt: tensor-product evaluation of the coefficient window with
+   the generated weights, divided by the spacing powers; tied by the correspondence) of a 2-D field whose
+   components are sampled from quadratic polynomials equals the energy of the analytic second derivatives, at
+   every evaluated point, for every stride and spacing -- in particular zero for affine coefficient fields *)
+Theorem C17_bspline_bending_is_analytic_energy_partial :
+  forall (K : fld), is_field K -> char0 K ->
+  forall (a1 b1 d1 e1 g1 h1 a2 b2 d2 e2 g2 h2 hx hy : K) (stride : list Z) (p : idx),
+  hx <> 0 -> hy <> 0 -> List.length stride = 2%nat -> List.length p = 2%nat ->
+  bs_bending_pt (@gen_w K) 2 stride [hx; hy] [quad2 K a1 b1 d1 e1 g1 h1; quad2 K a2 b2 d2 e2 g2 h2] p
+  = sq ((1 + 1) * a1 / (hx * hx)) + (1 + 1) * sq (b1 / (hx * hy)) + sq ((1 + 1) * d1 / (hy * hy))
+  + (sq ((1 + 1) * a2 / (hx * hx)) + (1 + 1) * sq (b2 / (hx * hy)) + sq ((1 + 1) * d2 / (hy * hy))).
+Proof. exact bs_bending_quadratic. Qed.
+Print Assumptions C17_bspline_bending_is_analytic_energy_partial.
+(* PARTIAL: proved for quadratic coefficient fields in 2-D. For general coefficients the statement is C14's
+   (the weights of derivative order d are the d-th derivatives of the value weights) composed with the
+   coefficient structure C17_gen_coefficients_*; 3-D and general splines are covered by the correspondence
+   (bs_bending_pt vs bending_loss(mode='bspline'), D = 2, 3, strides 1, 2) and the implementation-side
+   evaluation.  Gaussian smoothing (sigma) and the modes forward / backward / central / gaussian have no stencil
+   model here: their spacing divisors are proved (C17_spacing_divisor_every_mode), the rest is evaluated on the
+   implementation; module wrappers likewise. *)
 
 (* non-vacuity *)
 Example C17_nonvacuous :
